@@ -11,10 +11,17 @@
   What is **not** proved (marked `_partial`, decided only by the search of `harness/c01.py`): the quantitative clause
   "at most a small fraction of the original bias" for the empirical-CDF methods at unequal sizes and for seasonal
   windows.  Proved instead: the outputs lie in the range of the target sample, and the exact formulas per window.
+  Added later (§7, §8): for ONE window (window-free mode) the unequal-size clause IS proved with an explicit constant —
+  non-parametric QuantileMapping: `−range(obs)/n ≤ mean out − mean obs ≤ range(obs)/m` (`qm_nonparam_mean_bounds`);
+  CDFt (default pair) under the range guard: `|mean out − mean obs| ≤ range(obs)(1/n + 1/m)` (`cdft_mean_bound`).
+  Still not proved: seasonal running windows (the lift of these bounds through the window skeleton), CDFt when the
+  observations reach outside the shifted model sample (there the bound is false).
 -/
 import IbicusModel.Lemmas.C01
 import IbicusModel.Lemmas.C01Isimip
 import IbicusModel.Lemmas.C01Sdm
+import IbicusModel.Lemmas.C01Bound
+import IbicusModel.Lemmas.C01BoundCdft
 import IbicusModel.Props.C03
 
 namespace Props.C01
@@ -424,7 +431,7 @@ theorem legacy_sdm_abs_counterexample :
 
 end sdm
 
-/-! ## 6. The windowed / unequal-length clause — *partial*
+/-! ## 6. The windowed / unequal-length clause — *partial*  (see §7 / §8 for what is proved about unequal lengths in one window)
 
 Full statement (NOT proved; decided only by the search in `harness/c01.py`, violation iff the residual mean bias
 exceeds `max(tol, 0.25·|bias|)` on samples with at least 200 values):
@@ -472,5 +479,153 @@ theorem cdftShifted_mean (obs H : List Rat) (hH : H ≠ []) :
     mean (cdftShifted .additive obs H H).1 = mean obs := by
   simp only [cdftShifted]
   rw [mean_map_add _ _ hH]; ring
+
+/-! ## 7. Unequal sample sizes: an explicit bound on the residual mean bias (non-parametric QuantileMapping)
+
+`obs` has `n` values, the tie-free `cm_hist` has `m` values, `n ≠ m` allowed.  The step ecdf of `cm_hist` at its value of
+0-based rank `r` is `(r+1)/m`; `IECDF` of the observations reads the order statistic `⌊(n−1)(r+1)/m⌋`; so
+`mean out = (1/m) Σ_{r<m} obs_(⌊(n−1)(r+1)/m⌋)`, a Riemann sum of the observed quantile function on the grid of the model
+sample.  Compared term by term with `mean obs` over the common refinement `p < n·m` (`Lemmas/C01Bound.lean`):
+
+    − range(obs) / n  ≤  mean out − mean obs  ≤  range(obs) / m .
+
+Both constants are attained in the limit (`obs = [0, 1]`, `m → ∞`: residual `1/m − 1/2 → −range/n`;
+`obs = [0, …, 0, 1]`, `m = 1`: residual `1 − 1/n → range/m`), so `max(1/n, 1/m) = 1/min(n, m)` cannot be improved
+by more than the factor `(1 − 1/max(n,m))`.  Guards: both samples non-empty (the means divide by `n`, `m`), `cm_hist`
+tie-free (numpy's sort of tied values and the step ecdf at a tie group are a different formula), multiplicative
+detrending only with `mean cm_hist ≠ 0` (the code divides by it). -/
+
+open Lemmas.C01Bound in
+/-- **non-parametric QM, `F = H`, any sizes, `H` tie-free: two-sided bound on the residual mean bias** -/
+theorem qm_nonparam_mean_bounds (d : Detrending) (obs H : List Rat) (hn : obs ≠ []) (hm : H ≠ []) (hH : H.Nodup)
+    (hd : d = .multiplicative → mean H ≠ 0) :
+    -((maxQ obs - minQ obs) / (obs.length : Rat)) ≤ mean (qmNonparam d obs H H) - mean obs ∧
+      mean (qmNonparam d obs H H) - mean obs ≤ (maxQ obs - minQ obs) / (H.length : Rat) := by
+  have hlen : (qmNonparam d obs H H).length = H.length := by
+    rw [qmNonparam_self d obs H hd, List.length_map]
+  have hmean : mean obs = (sortQ obs).sum / ((sortQ obs).length : Rat) := (mean_perm (sortQ_perm obs)).symm
+  have hb := gridMean_bounds (sortQ_sorted obs) (sortQ_ne_nil hn) (List.length_pos_iff.mpr hm)
+  rw [sortQ_head obs hn, sortQ_length, sortQ_last obs hn] at hb
+  rw [hmean, sortQ_length]
+  unfold mean
+  rw [hlen, qmNonparam_sum d obs H hn hH hd]
+  exact hb
+
+/-- **… as one constant: `|mean out − mean obs| ≤ range(obs) · max(1/n, 1/m)`** (`= range(obs) / min(n, m)`) -/
+theorem qm_nonparam_mean_bound (d : Detrending) (obs H : List Rat) (hn : obs ≠ []) (hm : H ≠ []) (hH : H.Nodup)
+    (hd : d = .multiplicative → mean H ≠ 0) :
+    |mean (qmNonparam d obs H H) - mean obs| ≤
+      (maxQ obs - minQ obs) * max (1 / (obs.length : Rat)) (1 / (H.length : Rat)) := by
+  obtain ⟨hl, hu⟩ := qm_nonparam_mean_bounds d obs H hn hm hH hd
+  have hR : 0 ≤ maxQ obs - minQ obs := sub_nonneg.mpr (minQ_le_maxQ hn)
+  have h1 : (maxQ obs - minQ obs) * (1 / (obs.length : Rat)) ≤
+      (maxQ obs - minQ obs) * max (1 / (obs.length : Rat)) (1 / (H.length : Rat)) :=
+    mul_le_mul_of_nonneg_left (le_max_left _ _) hR
+  have h2 : (maxQ obs - minQ obs) * (1 / (H.length : Rat)) ≤
+      (maxQ obs - minQ obs) * max (1 / (obs.length : Rat)) (1 / (H.length : Rat)) :=
+    mul_le_mul_of_nonneg_left (le_max_right _ _) hR
+  rw [abs_le]
+  constructor
+  · have : (maxQ obs - minQ obs) / (obs.length : Rat) = (maxQ obs - minQ obs) * (1 / (obs.length : Rat)) := by ring
+    linarith
+  · have : (maxQ obs - minQ obs) / (H.length : Rat) = (maxQ obs - minQ obs) * (1 / (H.length : Rat)) := by ring
+    linarith
+
+-- non-vacuity: every guard holds on a concrete instance with n = 3 ≠ m = 5 (every detrending mode)
+example : |mean (qmNonparam .additive [1, 2, 6] [10, 14, 11, 19, 12] [10, 14, 11, 19, 12]) - mean [1, 2, 6]| ≤
+    (maxQ [1, 2, 6] - minQ [1, 2, 6]) * max (1 / (([1, 2, 6] : List Rat).length : Rat))
+      (1 / (([10, 14, 11, 19, 12] : List Rat).length : Rat)) :=
+  qm_nonparam_mean_bound _ _ _ (by simp) (by simp) (by decide +kernel) (by simp)
+example : (Model.Debiasers.Detrending.multiplicative = .multiplicative → mean ([10, 14, 11, 19, 12] : List Rat) ≠ 0) := by
+  intro _; decide +kernel
+-- the bound is not trivially loose — the residual on that instance is −3/5 (a bound of 0 would be false), and it lies
+-- inside the proved interval [−range/n, range/m] = [−5/3, 1]   (concrete witness, `decide +kernel`)
+open Lemmas.C01Bound in
+example : mean (qmNonparam .no_detrending [1, 2, 6] [10, 14, 11, 19, 12] [10, 14, 11, 19, 12]) - mean [1, 2, 6] = -3 / 5 := by
+  have hs : sortQ [1, 2, 6] = [1, 2, 6] := sortQ_of_sorted (by decide +kernel)
+  have hlen : (qmNonparam .no_detrending [1, 2, 6] [10, 14, 11, 19, 12] [10, 14, 11, 19, 12]).length = 5 := by
+    rw [qmNonparam_self _ _ _ (by simp), List.length_map]; rfl
+  unfold mean
+  rw [hlen, qmNonparam_sum _ _ _ (by simp) (by decide +kernel) (by simp), hs]
+  decide +kernel
+example : -((maxQ [1, 2, 6] - minQ [1, 2, 6]) / 3) = -5 / 3 ∧ (maxQ [1, 2, 6] - minQ [1, 2, 6]) / 5 = (1 : Rat) := by
+  decide +kernel
+
+/-! ## 8. Unequal sample sizes: CDFt (default pair `linear_interpolation` + `linear`), `cm_future = cm_hist`
+
+Under the range guard of `cdft_perm` (the observations lie inside the range of the shifted model sample `H'`, so the
+last `iecdf_H'(ecdf_H'(·))` does not clamp) every output is the `linear` quantile of the observations at `r/(m−1)`,
+`r` the rank of the value in `H'`; the interpolant is sandwiched between order statistics and both sides are grid sums
+of §7 (`Lemmas/C01BoundCdft.lean`):  `|mean out − mean obs| ≤ range(obs)·(1/n + 1/m)`.
+Without the range guard the statement is FALSE (the clamp to `[min H', max H']` moves the mean by an amount that depends
+on `H'`; measured on the real code: 1.56 × this bound) — what holds then is `cdft_out_in_shifted_range_partial`.
+The constant is not sharp (measured on the real code: the residual stays below `range·(1/(2n) + 1/m)`). -/
+
+open Lemmas.C01Bound in
+/-- **CDFt, `F = H`, any sizes, `H'` tie-free, range guard: bound on the residual mean bias**.  Guards: `obs` non-empty,
+    at least two model values (the linear ecdf divides by `m − 1`), multiplicative shift only with `mean H ≠ 0`. -/
+theorem cdft_mean_bound (d : DeltaShift) (obs H : List Rat) (hn : obs ≠ []) (hm : 2 ≤ H.length)
+    (_hd : d = .multiplicative → mean H ≠ 0) (hH' : (cdftShifted d obs H H).1.Nodup)
+    (hr : ∀ v ∈ obs, minQ (cdftShifted d obs H H).1 ≤ v ∧ v ≤ maxQ (cdftShifted d obs H H).1) :
+    |mean (cdftMapping d .linear .linear obs H H) - mean obs| ≤
+      (maxQ obs - minQ obs) * (1 / (obs.length : Rat) + 1 / (H.length : Rat)) := by
+  have hl' : (cdftShifted d obs H H).1.length = H.length := by cases d <;> simp [cdftShifted]
+  have hm' : 2 ≤ (cdftShifted d obs H H).1.length := by omega
+  have hlen : (cdftMapping d .linear .linear obs H H).length = H.length := by
+    rw [cdft_self_value d obs H hn hm' hH' hr, List.length_map, hl']
+  have hmean : mean obs = (sortQ obs).sum / ((sortQ obs).length : Rat) := (mean_perm (sortQ_perm obs)).symm
+  obtain ⟨hlo, hhi⟩ := linearGrid_bounds (sortQ_sorted obs) (sortQ_ne_nil hn) hm'
+  rw [← cdft_self_sum d obs H hn hm' hH' hr, sortQ_head obs hn, sortQ_length, sortQ_last obs hn, hl'] at hlo hhi
+  rw [hmean, sortQ_length]
+  unfold mean
+  rw [hlen]
+  have hn0 : (0 : Rat) < (obs.length : Rat) := by exact_mod_cast List.length_pos_iff.mpr hn
+  have hm0 : (0 : Rat) < (H.length : Rat) := by
+    have : 0 < H.length := by omega
+    exact_mod_cast this
+  have hnm := mul_pos hn0 hm0
+  generalize (cdftMapping d .linear .linear obs H H).sum = S at hlo hhi ⊢
+  generalize (sortQ obs).sum = T at hlo hhi ⊢
+  generalize maxQ obs - minQ obs = R at hlo hhi ⊢
+  have k1 : S / (H.length : Rat) - T / (obs.length : Rat)
+      = ((obs.length : Rat) * S - (H.length : Rat) * T) / ((obs.length : Rat) * (H.length : Rat)) := by
+    field_simp
+  have k2 : R * (1 / (obs.length : Rat) + 1 / (H.length : Rat))
+      = (((obs.length : Rat) + (H.length : Rat)) * R) / ((obs.length : Rat) * (H.length : Rat)) := by
+    field_simp; ring
+  rw [k1, k2, abs_le, ← neg_div]
+  exact ⟨div_le_div_of_nonneg_right (by linarith) (le_of_lt hnm), div_le_div_of_nonneg_right (by linarith) (le_of_lt hnm)⟩
+
+-- non-vacuity: every guard holds on a concrete instance with n = 3 ≠ m = 5 (additive shift; the shifted model sample
+-- [4/5, 34/5, 14/5, -6/5, 29/5] covers the observed range [1, 6])
+example : |mean (cdftMapping .additive .linear .linear [1, 2, 6] [20, 26, 22, 18, 25] [20, 26, 22, 18, 25]) - mean [1, 2, 6]| ≤
+    (maxQ [1, 2, 6] - minQ [1, 2, 6]) * (1 / (([1, 2, 6] : List Rat).length : Rat) + 1 / (([20, 26, 22, 18, 25] : List Rat).length : Rat)) := by
+  have h : (cdftShifted .additive [1, 2, 6] [20, 26, 22, 18, 25] [20, 26, 22, 18, 25]).1 = [4 / 5, 34 / 5, 14 / 5, -6 / 5, 29 / 5] := by
+    decide +kernel
+  have hmin : minQ ([4 / 5, 34 / 5, 14 / 5, -6 / 5, 29 / 5] : List Rat) = -6 / 5 := by decide +kernel
+  have hmax : maxQ ([4 / 5, 34 / 5, 14 / 5, -6 / 5, 29 / 5] : List Rat) = 34 / 5 := by decide +kernel
+  refine cdft_mean_bound .additive [1, 2, 6] [20, 26, 22, 18, 25] (by simp) (by decide) (by simp)
+    (cdftShifted_additive_nodup _ _ (by decide +kernel)) ?_
+  rw [h, hmin, hmax]
+  decide +kernel
+-- the bound is not trivially loose: on that instance the residual is −1/10 (the quantiles 1, 3/2, 2, 4, 6 of the
+-- observations at r/4 have mean 29/10, the observations have mean 3); the proved bound is 5·(1/3 + 1/5) = 8/3
+open Lemmas.C01Bound in
+example : mean (cdftMapping .additive .linear .linear [1, 2, 6] [20, 26, 22, 18, 25] [20, 26, 22, 18, 25]) - mean [1, 2, 6] = -1 / 10 := by
+  have h : (cdftShifted .additive [1, 2, 6] [20, 26, 22, 18, 25] [20, 26, 22, 18, 25]).1 = [4 / 5, 34 / 5, 14 / 5, -6 / 5, 29 / 5] := by
+    decide +kernel
+  have hmin : minQ ([4 / 5, 34 / 5, 14 / 5, -6 / 5, 29 / 5] : List Rat) = -6 / 5 := by decide +kernel
+  have hmax : maxQ ([4 / 5, 34 / 5, 14 / 5, -6 / 5, 29 / 5] : List Rat) = 34 / 5 := by decide +kernel
+  have hs : sortQ [1, 2, 6] = [1, 2, 6] := sortQ_of_sorted (by decide +kernel)
+  have hnd := cdftShifted_additive_nodup [1, 2, 6] [20, 26, 22, 18, 25] (by decide +kernel)
+  have hr : ∀ v ∈ ([1, 2, 6] : List Rat), minQ (cdftShifted .additive [1, 2, 6] [20, 26, 22, 18, 25] [20, 26, 22, 18, 25]).1 ≤ v ∧
+      v ≤ maxQ (cdftShifted .additive [1, 2, 6] [20, 26, 22, 18, 25] [20, 26, 22, 18, 25]).1 := by
+    rw [h, hmin, hmax]; decide +kernel
+  have hm' : 2 ≤ (cdftShifted .additive [1, 2, 6] [20, 26, 22, 18, 25] [20, 26, 22, 18, 25]).1.length := by rw [h]; decide
+  have hlen : (cdftMapping .additive .linear .linear [1, 2, 6] [20, 26, 22, 18, 25] [20, 26, 22, 18, 25]).length = 5 := by
+    rw [cdft_self_value _ _ _ (by simp) hm' hnd hr, List.length_map, h]; rfl
+  unfold mean
+  rw [hlen, cdft_self_sum _ _ _ (by simp) hm' hnd hr, h, hs]
+  decide +kernel
 
 end Props.C01
